@@ -3269,10 +3269,20 @@ func (p *printer) printExpr(expr js_ast.Expr, level js_ast.L, flags printExprFla
 			// Handle inlined constants
 			p.printExpr(js_ast.ConstValueToExpr(expr.Loc, value), level, flags)
 		} else {
-			p.printSpaceBeforeIdentifier()
+			// An import named "async" (or "let") needs the same parentheses at the
+			// start of a "for-of" loop initializer as an ordinary identifier does
 			name := p.renamer.NameForSymbol(ref)
+			wrap := len(p.js) == p.forOfInitStart && (name == "let" ||
+				((flags&isFollowedByOf) != 0 && (flags&isInsideForAwait) == 0 && name == "async"))
+			if wrap {
+				p.print("(")
+			}
+			p.printSpaceBeforeIdentifier()
 			p.addSourceMappingForName(expr.Loc, name, ref)
 			p.printIdentifier(name)
+			if wrap {
+				p.print(")")
+			}
 		}
 
 	case *js_ast.EAwait:
